@@ -54,4 +54,120 @@ theorem wrap_inside (fl : K → Int) (hfl : IsFloor fl) (pad : K) (hpad : 0 < pa
   obtain ⟨_, z0, z1, _⟩ := axis_unit fl hfl pad hpad pbc.z _ _ mz
   exact ⟨x0, x1.le, y0, y1.le, z0, z1.le⟩
 
+/-- **wrap_periodic_axes_fixed**: periodic cell vectors are untouched; every new cell vector is the old
+    one times a factor `≥ 1` (non-periodic ones are only lengthened); the origin moves only along
+    non-periodic directions and only backwards; a fully periodic box is returned unchanged; the old
+    cell is contained in the new one. -/
+theorem wrap_periodic_axes_fixed (fl : K → Int) (pad : K) (hpad : 0 < pad) (b : Box K) (pbc : V3 Bool)
+    (pos : List (V3 K)) :
+    ((pbc.x = true → (wrap fl pad b pbc pos).box.vects.r0 = b.vects.r0) ∧
+     (pbc.y = true → (wrap fl pad b pbc pos).box.vects.r1 = b.vects.r1) ∧
+     (pbc.z = true → (wrap fl pad b pbc pos).box.vects.r2 = b.vects.r2)) ∧
+    (∃ kx ky kz : K, 1 ≤ kx ∧ 1 ≤ ky ∧ 1 ≤ kz ∧
+      (wrap fl pad b pbc pos).box.vects = ⟨V3.smul kx b.vects.r0, V3.smul ky b.vects.r1, V3.smul kz b.vects.r2⟩) ∧
+    (∃ m : V3 K, m.x ≤ 0 ∧ m.y ≤ 0 ∧ m.z ≤ 0 ∧ (pbc.x = true → m.x = 0) ∧ (pbc.y = true → m.y = 0) ∧
+      (pbc.z = true → m.z = 0) ∧ (wrap fl pad b pbc pos).box.origin = b.origin + M3.vecMul m b.vects) ∧
+    (pbc = ⟨true, true, true⟩ → (wrap fl pad b pbc pos).box = b) ∧
+    (M3.det b.vects ≠ 0 → ∀ t : V3 K, insideRel t →
+      insideRel ((wrap fl pad b pbc pos).box.cartToRel (b.relToCart t))) := by
+  obtain ⟨wx, wy, wz⟩ := bounds_width pad hpad pbc (pos.map b.cartToRel)
+  obtain ⟨x1, x2, _⟩ := axisBounds_spec pad hpad pbc.x ((pos.map b.cartToRel).map (·.x))
+  obtain ⟨y1, y2, _⟩ := axisBounds_spec pad hpad pbc.y ((pos.map b.cartToRel).map (·.y))
+  obtain ⟨z1, z2, _⟩ := axisBounds_spec pad hpad pbc.z ((pos.map b.cartToRel).map (·.z))
+  refine ⟨⟨?_, ?_, ?_⟩, ?_, ?_, ?_, ?_⟩
+  · intro h; simp only [wrap, paddedBox, bounds, h, axisBounds_periodic, smul_one_sub_zero]
+  · intro h; simp only [wrap, paddedBox, bounds, h, axisBounds_periodic, smul_one_sub_zero]
+  · intro h; simp only [wrap, paddedBox, bounds, h, axisBounds_periodic, smul_one_sub_zero]
+  · exact ⟨_, _, _, wx, wy, wz, rfl⟩
+  · refine ⟨⟨(bounds pad pbc (pos.map b.cartToRel)).x.1, (bounds pad pbc (pos.map b.cartToRel)).y.1,
+      (bounds pad pbc (pos.map b.cartToRel)).z.1⟩, x1, y1, z1, ?_, ?_, ?_, rfl⟩
+    · intro h; simp only [bounds, h, axisBounds_periodic]
+    · intro h; simp only [bounds, h, axisBounds_periodic]
+    · intro h; simp only [bounds, h, axisBounds_periodic]
+  · intro h
+    obtain ⟨⟨r0, r1, r2⟩, ⟨o0, o1, o2⟩⟩ := b
+    subst h
+    simp only [wrap, paddedBox, bounds, axisBounds_periodic, smul_one_sub_zero, M3.vecMul, V3.add_def,
+      zero_mul, add_zero]
+  · intro hdet t ht
+    have hd := det_wrap_ne_zero fl pad hpad b hdet pbc pos
+    have e := relToCart_paddedBox b (bounds pad pbc (pos.map b.cartToRel)) t
+      (by intro h; rw [h] at wx; linarith) (by intro h; rw [h] at wy; linarith) (by intro h; rw [h] at wz; linarith)
+    have e2 : (wrap fl pad b pbc pos).box = paddedBox b (bounds pad pbc (pos.map b.cartToRel)) := rfl
+    rw [e2, ← e, cartToRel_relToCart _ (by rw [← e2]; exact hd)]
+    obtain ⟨t0, t1, t2, t3, t4, t5⟩ := ht
+    have px : 0 < (bounds pad pbc (pos.map b.cartToRel)).x.2 - (bounds pad pbc (pos.map b.cartToRel)).x.1 := by linarith
+    have py : 0 < (bounds pad pbc (pos.map b.cartToRel)).y.2 - (bounds pad pbc (pos.map b.cartToRel)).y.1 := by linarith
+    have pz : 0 < (bounds pad pbc (pos.map b.cartToRel)).z.2 - (bounds pad pbc (pos.map b.cartToRel)).z.1 := by linarith
+    have x1' : (bounds pad pbc (pos.map b.cartToRel)).x.1 ≤ 0 := x1
+    have x2' : 1 ≤ (bounds pad pbc (pos.map b.cartToRel)).x.2 := x2
+    have y1' : (bounds pad pbc (pos.map b.cartToRel)).y.1 ≤ 0 := y1
+    have y2' : 1 ≤ (bounds pad pbc (pos.map b.cartToRel)).y.2 := y2
+    have z1' : (bounds pad pbc (pos.map b.cartToRel)).z.1 ≤ 0 := z1
+    have z2' : 1 ≤ (bounds pad pbc (pos.map b.cartToRel)).z.2 := z2
+    refine ⟨div_nonneg (by linarith) px.le, (div_le_one px).mpr (by linarith),
+      div_nonneg (by linarith) py.le, (div_le_one py).mpr (by linarith),
+      div_nonneg (by linarith) pz.le, (div_le_one pz).mpr (by linarith)⟩
+
+/-- **wrap_idem**: wrapping a wrapped system changes nothing: same box, same positions, all flags zero. -/
+theorem wrap_idem (fl : K → Int) (hfl : IsFloor fl) (pad : K) (hpad : 0 < pad) (b : Box K)
+    (hdet : M3.det b.vects ≠ 0) (pbc : V3 Bool) (pos : List (V3 K)) :
+    (wrap fl pad (wrap fl pad b pbc pos).box pbc (wrap fl pad b pbc pos).pos).box = (wrap fl pad b pbc pos).box ∧
+    (wrap fl pad (wrap fl pad b pbc pos).box pbc (wrap fl pad b pbc pos).pos).pos = (wrap fl pad b pbc pos).pos ∧
+    ∀ f ∈ (wrap fl pad (wrap fl pad b pbc pos).box pbc (wrap fl pad b pbc pos).pos).flags, f = ⟨0, 0, 0⟩ := by
+  have hd := det_wrap_ne_zero fl pad hpad b hdet pbc pos
+  -- every new position is seen by the new box at `newRel`
+  have key : ∀ p' ∈ (wrap fl pad b pbc pos).pos, ∃ p ∈ pos, p' = atomPos fl b pbc p ∧
+      (wrap fl pad b pbc pos).box.cartToRel p' = newRel fl pad b pbc pos p := by
+    intro p' hp'
+    simp only [wrap, List.mem_map] at hp'
+    obtain ⟨p, hp, rfl⟩ := hp'
+    exact ⟨p, hp, rfl, wrap_cartToRel fl pad hpad b hdet pbc pos p⟩
+  have hflags : ∀ p' ∈ (wrap fl pad b pbc pos).pos,
+      atomFlags fl (wrap fl pad b pbc pos).box pbc p' = ⟨0, 0, 0⟩ := by
+    intro p' hp'
+    obtain ⟨p, hp, _, e⟩ := key p' hp'
+    obtain ⟨⟨x0, x1, _⟩, ⟨y0, y1, _⟩, ⟨z0, z1, _⟩⟩ := newRel_facts fl hfl pad hpad b pbc pos p hp
+    simp only [atomFlags, flagsOf, e, flagOf_unit fl hfl _ _ x0 x1, flagOf_unit fl hfl _ _ y0 y1,
+      flagOf_unit fl hfl _ _ z0 z1]
+  refine ⟨?_, ?_, ?_⟩
+  · -- box
+    have hb : bounds pad pbc ((wrap fl pad b pbc pos).pos.map (wrap fl pad b pbc pos).box.cartToRel)
+        = ⟨(0, 1), (0, 1), (0, 1)⟩ := by
+      simp only [bounds]
+      congr 1
+      · apply axisBounds_of_strict
+        intro hpx x hx
+        simp only [List.mem_map] at hx
+        obtain ⟨s, ⟨p', hp', rfl⟩, rfl⟩ := hx
+        obtain ⟨p, hp, _, e⟩ := key p' (by simpa [wrap] using hp')
+        obtain ⟨⟨x0, x1, x2⟩, _, _⟩ := newRel_facts fl hfl pad hpad b pbc pos p hp
+        rw [e]; exact ⟨x2 hpx, x1⟩
+      · apply axisBounds_of_strict
+        intro hpx x hx
+        simp only [List.mem_map] at hx
+        obtain ⟨s, ⟨p', hp', rfl⟩, rfl⟩ := hx
+        obtain ⟨p, hp, _, e⟩ := key p' (by simpa [wrap] using hp')
+        obtain ⟨_, ⟨x0, x1, x2⟩, _⟩ := newRel_facts fl hfl pad hpad b pbc pos p hp
+        rw [e]; exact ⟨x2 hpx, x1⟩
+      · apply axisBounds_of_strict
+        intro hpx x hx
+        simp only [List.mem_map] at hx
+        obtain ⟨s, ⟨p', hp', rfl⟩, rfl⟩ := hx
+        obtain ⟨p, hp, _, e⟩ := key p' (by simpa [wrap] using hp')
+        obtain ⟨_, _, ⟨x0, x1, x2⟩⟩ := newRel_facts fl hfl pad hpad b pbc pos p hp
+        rw [e]; exact ⟨x2 hpx, x1⟩
+    show paddedBox _ (bounds pad pbc ((wrap fl pad b pbc pos).pos.map (wrap fl pad b pbc pos).box.cartToRel)) = _
+    rw [hb, paddedBox_unit]
+  · -- positions
+    show (wrap fl pad b pbc pos).pos.map (atomPos fl (wrap fl pad b pbc pos).box pbc) = (wrap fl pad b pbc pos).pos
+    conv_rhs => rw [← List.map_id (wrap fl pad b pbc pos).pos]
+    apply List.map_congr_left
+    intro p' hp'
+    rw [atomPos, hflags p' hp', subFlags_zero, relToCart_cartToRel _ hd, id]
+  · intro f hf
+    have hf' : f ∈ (wrap fl pad b pbc pos).pos.map (atomFlags fl (wrap fl pad b pbc pos).box pbc) := hf
+    obtain ⟨p', hp', rfl⟩ := List.mem_map.mp hf'
+    exact hflags p' hp'
+
 end Atomman.C05
